@@ -96,6 +96,9 @@ def failTag (c : Case) (ans : Option (Str × Str)) (v : Judgement) : String :=
     | .pathLength => "shorter-path-won-" ++ kindName c.kind
 
 def lookupH : Handler := fun inp impl => do
+  -- c03.grpc: the interceptor would not see this path as the method name (query, escape, TLS): nothing to compare
+  if (impl.getObjVal? "skip").toOption.isSome then
+    return ({ model := Json.null, agree := true, spec := true, nontrivial := false, tag := "not-a-method-name" } : Verdict).toJson
   let defs ← (do let a ← inp.getObjValAs? (Array Json) "defs"; a.toList.mapM routeDef)
   let orc := (impl.getObjVal? "oracle").toOption.getD (Json.mkObj [])
   let env := envOf orc
@@ -254,5 +257,5 @@ def globH : Handler := fun inp impl => do
 
 def streams : List (String × Handler) :=
   [("c03.lookup", lookupH), ("c03.lookuphost", lookupHostH), ("c03.reverse", reverseH), ("c03.glob", globH),
-   ("c03.ipath", Fabio.Driver.C03Fold.ipathH)]
+   ("c03.ipath", Fabio.Driver.C03Fold.ipathH), ("c03.grpc", lookupH)]
 end Fabio.Driver.C03
